@@ -127,8 +127,10 @@ pub(crate) fn compile_regex(
     if multiline {
         // The fancy_regex crate internally seems to have flags that can be used
         // to enable multiline support, but they're not exposed via its
-        // RegexBuilder. We instead just prefix with the right flags.
-        let updated_str = std::format!("(?ms){regex_str}");
+        // RegexBuilder. We instead just prefix with the right flags: `s` lets `.`
+        // match newlines. (Not `m`: `^` and `$` must keep meaning the start and end
+        // of the whole string, not of each line in it.)
+        let updated_str = std::format!("(?s){regex_str}");
         regex_str = updated_str.into();
     }
 
